@@ -392,3 +392,43 @@ def _h_leases_survive_growth(dl, elo, nx, off, ln):
     if not sf._schema.lease_serializer.unserialize(extras[nx - 1]).is_renew_secret(X.tok("xr", nx - 1)):
         return "harness: secret check"
     return True
+
+
+# ---- leases survive share data writes (immutable container) ------------------------------------------------
+
+hlib.encoded(SF.write_share_data)
+
+
+def h_imm_write_keeps_leases(size: int, n: int, e0: int, e1: int, off: int, ln: int) -> bool:
+    """
+    pre: 1 <= size <= B["dlen_max"] and 1 <= n <= 2 and 0 <= off and 0 <= ln
+    pre: 0 <= e0 < X.U32 and 0 <= e1 < X.U32
+    post: _ == True
+    """
+    return X.guard(_h_imm_write_keeps_leases, size, n, e0, e1, off, ln)
+
+
+def _h_imm_write_keeps_leases(size, n, e0, e1, off, ln):
+    # a share being uploaded: `size` allocated data bytes followed by n lease records; any data write either is refused
+    # (it would reach beyond the allocated size) or leaves every lease record and the lease count as they were
+    from allmydata.interfaces import DataTooLargeError
+    version = _version()
+    st, old = _imm_state(size, n, [e0, e1, 0], version)
+    sf = SF(PATH)
+    sf._max_size = size              # as set by ShareFile(..., create=True, max_size=size) for an upload in progress
+    try:
+        sf.write_share_data(off, ProvBuf.src("new", ln))
+    except DataTooLargeError:
+        if off + ln <= size:
+            return "DataTooLargeError for a write inside the allocated size"
+        if FS.nops != 0:
+            return "refused write modified the container"
+        return True
+    if off + ln > size:
+        return "a write reaching beyond the allocated size was accepted (it lands in the lease area)"
+    cnt, recs = _imm_leases(st, size)
+    if cnt != n or recs != old:
+        return "a share data write altered the leases"
+    if st.size != 0xc + size + n * ILEASE:
+        return "a share data write changed the container size"
+    return True
